@@ -54,8 +54,8 @@ def build(ctx):
     G, D = 2, ctx.q(2, 3)
     ctx.assumptions = ["arbitrary prior image (every byte symbolic); geometry fields within bounds: numInGroup <= %d, data length <= %d, wire blockLength == compiled; value v symbolic over the full 64-bit range" % (G, D),
                        "one setter call from an arbitrary prior image (one inductive step: any in-order sequence of setter calls composes such steps)"]
-    for (xml, std, mode) in c02.plan(ctx):
-        sch, inc = hgen.gen_headers(ctx, xml)
+    for (xml, std, mode) in c02.plan(ctx) + [(x, "17", "checked") for x in c02.random_schemas(ctx)]:
+        sch, inc = c02.gen_any(ctx, xml)
         for msg in sch.messages:
             if ctx.quick and msg.name in c02.QUICK_SKIP: continue
             g = msggen.MG(sch, msg, G)
